@@ -1067,7 +1067,7 @@ def t2(ctx):
         run("treelist=3,every-other-op", "every history of 3 operations over every second operation of the alphabet", True,
             gen("treelist", small, (3,), "treelist=3,every-other-op"))
         run("treelist=3-4,random", "seeded random histories of 3-4 TreeList operations over the full alphabet", False,
-            gen_random(rng_for(ctx, 111), "treelist", tl_alphabet, 300000, 3, 4, "treelist=3-4,random"))
+            gen_random(rng_for(ctx, 111), "treelist", tl_alphabet, 600000, 3, 4, "treelist=3-4,random"))
     run("matrix<=%d" % (2 if quick else 3), "every history of CharacterMatrix operations (%d operations: new_sequence / []= / [] with member, "
         "foreign, unknown keys; migrate/clone into 4 namespaces; reconstruct; update; fill_taxa; pack; the 6 sequence-merging methods with a "
         "same-namespace and a foreign matrix) x case-sensitivity" % len(m_alphabet()), True,
